@@ -36,7 +36,25 @@ type C13Elem struct {
 	Val  int64  `json:"val,omitempty"`
 }
 
-var c13Templates = []string{"[]int64", "[]interface", "[24]int64", "map[string]int64", "[]*int64", "map[interface]interface", "struct", "nil-list", "nil-map", "[][]int64"}
+var c13Templates = []string{"[]int64", "[]interface", "[24]int64", "map[string]int64", "[]*int64", "map[interface]interface", "struct", "nil-list", "nil-map", "[][]int64", "mixed", "mixed"}
+
+// c13Mixed / c13MixedDoc: destinations of different integer types, so that a reference is resolved into
+// a slot of another Go type than the object built for its marker (struct field -> map value and back)
+type c13Mixed struct {
+	K0 int16
+	K1 int32
+	K2 int64
+	K3 uint16
+	K4 int32
+	K5 int16
+	K6 int64
+	K7 int32
+}
+
+type c13MixedDoc struct {
+	S *c13Mixed // behind a pointer: forward references into a struct held by value are the open finding S80
+	M map[string]int16
+}
 
 type c13Struct struct {
 	K0, K1, K2, K3, K4, K5, K6, K7 int64
@@ -67,6 +85,9 @@ func genC13Build(t *rapid.T) *C13Case {
 			}
 		}
 		vals[i] = int64(rapid.IntRange(-1000, 100000).Draw(t, "val"))
+		if c.Tmpl == "mixed" {
+			vals[i] = int64(rapid.IntRange(0, 30000).Draw(t, "mval"))
+		}
 	}
 	for i := 0; i < n; i++ {
 		e := C13Elem{Kind: kinds[i], Val: vals[i]}
@@ -84,6 +105,30 @@ func genC13Build(t *rapid.T) *C13Case {
 }
 
 func (c *C13Case) buildEvents() []ev.Event {
+	if c.Tmpl == "mixed" {
+		key := func(s string) ev.Event { return ev.Event{K: ev.StringArray, AT: events.ArrayTypeString, S: s} }
+		evs := []ev.Event{{K: ev.BD}, {K: ev.Version}, {K: ev.Map}, key("S"), {K: ev.Map}}
+		emit := func(i int) {
+			e := c.Elems[i]
+			evs = append(evs, key(fmt.Sprintf("K%d", i)))
+			switch e.Kind {
+			case "m":
+				evs = append(evs, ev.Event{K: ev.Marker, Bs: []byte(e.ID)}, ev.Event{K: ev.Int, I: e.Val})
+			case "r":
+				evs = append(evs, ev.Event{K: ev.RefLocal, Bs: []byte(e.ID)})
+			default:
+				evs = append(evs, ev.Event{K: ev.Int, I: e.Val})
+			}
+		}
+		for i := 0; i < len(c.Elems) && i < 8; i++ {
+			emit(i)
+		}
+		evs = append(evs, ev.Event{K: ev.End}, key("M"), ev.Event{K: ev.Map})
+		for i := 8; i < len(c.Elems); i++ {
+			emit(i)
+		}
+		return append(evs, ev.Event{K: ev.End}, ev.Event{K: ev.End}, ev.Event{K: ev.ED})
+	}
 	isMap := strings.HasPrefix(c.Tmpl, "map") || c.Tmpl == "struct" || c.Tmpl == "nil-map"
 	nested := c.Tmpl == "[][]int64"
 	evs := []ev.Event{{K: ev.BD}, {K: ev.Version}}
@@ -131,6 +176,8 @@ func (c *C13Case) template() interface{} {
 		return c13Struct{}
 	case "[][]int64":
 		return [][]int64{}
+	case "mixed":
+		return c13MixedDoc{}
 	}
 	return nil
 }
@@ -174,6 +221,25 @@ func (c *C13Case) checkBuilt(res interface{}) error {
 	}
 	for i, e := range c.Elems {
 		var ev reflect.Value
+		if c.Tmpl == "mixed" {
+			if rv.Kind() != reflect.Struct {
+				return fmt.Errorf("result is a %v", rv.Type())
+			}
+			if i < 8 {
+				sp := rv.FieldByName("S")
+				if sp.IsNil() {
+					return fmt.Errorf("field S is nil")
+				}
+				ev = sp.Elem().FieldByName(fmt.Sprintf("K%d", i))
+			} else {
+				ev = rv.FieldByName("M").MapIndex(reflect.ValueOf(fmt.Sprintf("K%d", i)))
+			}
+			got, err := intOf(ev)
+			if err != nil || got != e.Val {
+				return fmt.Errorf("position %d (%s %s): expected %d, found %v (%v)", i, e.Kind, e.ID, e.Val, got, err)
+			}
+			continue
+		}
 		switch rv.Kind() {
 		case reflect.Slice, reflect.Array:
 			if i >= rv.Len() {
@@ -384,7 +450,14 @@ func genC13(t *rapid.T, ctx *Ctx) interface{} {
 				{{K: ev.ArrayBegin, AT: events.ArrayTypeString}, {K: ev.ArrayChunk, U: 20}, {K: ev.ArrayData, Bs: []byte("twenty-bytes-long-str")[:20]}}}[rapid.IntRange(0, 4).Draw(t, "kt")]
 		} else {
 			target = [][]ev.Event{{{K: ev.Null}}, {{K: ev.List}, {K: ev.End}}, {{K: ev.Map}, {K: ev.End}}, {{K: ev.Nan}},
-				{{K: ev.Array, AT: events.ArrayTypeUint8, U: 1, Bs: []byte{1}}}, {{K: ev.Media, S: "a/b", Bs: []byte{1}}}}[rapid.IntRange(0, 5).Draw(t, "nt")]
+				{{K: ev.Array, AT: events.ArrayTypeUint8, U: 1, Bs: []byte{1}}}, {{K: ev.Media, S: "a/b", Bs: []byte{1}}},
+				// custom types (whole and chunked), chunked media, chunked typed array, node
+				{{K: ev.CustomText, U: 7, S: "ct"}}, {{K: ev.CustomBinary, U: 7, Bs: []byte{1, 2}}},
+				{{K: ev.CustomBegin, AT: events.ArrayTypeCustomText, U: 7}, {K: ev.ArrayChunk, U: 2}, {K: ev.ArrayData, Bs: []byte("ct")}},
+				{{K: ev.CustomBegin, AT: events.ArrayTypeCustomBinary, U: 7}, {K: ev.ArrayChunk, U: 2}, {K: ev.ArrayData, Bs: []byte{1, 2}}},
+				{{K: ev.MediaBegin, S: "a/b"}, {K: ev.ArrayChunk, U: 1}, {K: ev.ArrayData, Bs: []byte{1}}},
+				{{K: ev.ArrayBegin, AT: events.ArrayTypeUint16}, {K: ev.ArrayChunk, U: 1}, {K: ev.ArrayData, Bs: []byte{1, 2}}},
+				{{K: ev.Node}, {K: ev.Int, I: 1}, {K: ev.End}}}[rapid.IntRange(0, 12).Draw(t, "nt")]
 		}
 		marked := append([]ev.Event{{K: ev.Marker, Bs: []byte("tgt")}}, target...)
 		keyMap := []ev.Event{{K: ev.Map}, {K: ev.RefLocal, Bs: []byte("tgt")}, {K: ev.Int, I: 1}, {K: ev.End}}
